@@ -3,7 +3,7 @@ import json
 import os
 import vlib
 
-PROPS = ['Rangers.Props.C07', 'Rangers.Props.C07Rlp', 'Rangers.Props.C07Conv', 'Rangers.Props.C07Secp', 'Rangers.Props.C07Addr', 'Rangers.Props.C07Fork', 'Rangers.Props.C07Oracle', 'Rangers.Props.C07Unsigned', 'Rangers.Props.C07Batch', 'Rangers.Props.C07Facts', 'Rangers.Props.C07Admit']
+PROPS = ['Rangers.Props.C07', 'Rangers.Props.C07Rlp', 'Rangers.Props.C07Conv', 'Rangers.Props.C07Secp', 'Rangers.Props.C07Addr', 'Rangers.Props.C07Fork', 'Rangers.Props.C07Oracle', 'Rangers.Props.C07Unsigned', 'Rangers.Props.C07Batch', 'Rangers.Props.C07Sign', 'Rangers.Props.C07Facts', 'Rangers.Props.C07Admit']
 DRIVERS = ['C07']
 META = dict(
     level='proof',
